@@ -26,6 +26,12 @@ class Flattener:
         self.ffs = []
         self.init = []         # [[bits], value]
         self.names = {}        # hierarchical name -> (bits, signed)
+        self.mems = []         # list of row lists (patterns)
+        self.mem_ids = {}      # (path, memid) -> index (1-based for TLA+)
+        self.rds = []          # synchronous read ports
+        self.wrs = []          # write ports
+        self.wr_ids = {}       # (path, memid, PORTID) -> index (1-based) into self.wrs
+        self._pending_rds = [] # (rd dict, path, memid, transparency mask)
 
     def net(self, path, wire, bit):
         k = (path, wire, bit)
@@ -133,6 +139,8 @@ class Flattener:
                     av = dict(rp.params_dict(c))["\\ARST_VALUE"]
                     ff["arval"] = rp.const_int(av, signed=False) or 0
                 self.ffs.append(ff)
+            elif t in ("$meminit_v2", "$memrd_v2", "$memwr_v2"):
+                self.memory_cell(path, m, c, conns, params)
             elif t in IGNORED_CELLS:
                 continue
             else:
@@ -143,8 +151,63 @@ class Flattener:
             self.nodes.append({"k": "proc", "items": self.items(path, p["body"])})
         for cn in m["connects"]:
             self.nodes.append({"k": "conn", "l": self.refs(path, cn["lhs"]), "r": self.refs(path, cn["rhs"])})
-        if m["memories"]:
-            raise Unsupported("memories")
+        for mm in m["memories"]:
+            self.mem_index(path, mm["name"], mm["size"])
+
+    def mem_index(self, path, memid, size=None):
+        k = (path, memid)
+        if k not in self.mem_ids:
+            self.mems.append([0] * (size or 0))
+            self.mem_ids[k] = len(self.mems)
+        elif size is not None and len(self.mems[self.mem_ids[k] - 1]) < size:
+            self.mems[self.mem_ids[k] - 1].extend([0] * (size - len(self.mems[self.mem_ids[k] - 1])))
+        return self.mem_ids[k]
+
+    def memory_cell(self, path, m, c, conns, params):
+        raw = dict(rp.params_dict(c))
+        memid = raw["\\MEMID"]["v"]
+        size = next((mm["size"] for mm in m["memories"] if mm["name"] == memid), None)
+        mi = self.mem_index(path, memid, size)
+        t = c["type"]
+        if t == "$meminit_v2":
+            width, words = params["\\WIDTH"], params["\\WORDS"]
+            data = rp.sigspec_bits(conns["\\DATA"])
+            addr = rp.const_int(rp.wf_const(conns["\\ADDR"]) if False else {"t": "int", "v": 0}) or 0
+            rows = self.mems[mi - 1]
+            for wd in range(words):
+                v = 0
+                for b in range(width):
+                    d = data[wd * width + b]
+                    if isinstance(d, tuple):
+                        raise Unsupported("non-constant memory initialisation")
+                    if d == "1":
+                        v |= 1 << b
+                if addr + wd < len(rows):
+                    rows[addr + wd] = v
+        elif t == "$memwr_v2":
+            if params.get("\\PRIORITY_MASK", 0):
+                raise Unsupported("write port priorities")
+            self.wrs.append({"m": mi, "A": self.refs(path, conns["\\ADDR"]), "D": self.refs(path, conns["\\DATA"]),
+                             "EN": self.refs(path, conns["\\EN"]), "CLK": self.refs(path, conns["\\CLK"])[0],
+                             "pol": int(bool(params.get("\\CLK_POLARITY", 1)))})
+            self.wr_ids[(path, memid, params["\\PORTID"])] = len(self.wrs)
+        else:
+            if not params.get("\\CLK_ENABLE", 0):
+                self.nodes.append({"k": "memrd", "m": mi, "A": self.refs(path, conns["\\ADDR"]), "Y": self.refs(path, conns["\\DATA"])})
+            else:
+                tm = raw["\\TRANSPARENCY_MASK"]
+                mask = rp.const_int(tm, signed=False) or 0
+                rd = {"m": mi, "A": self.refs(path, conns["\\ADDR"]), "Y": self.refs(path, conns["\\DATA"]),
+                      "EN": self.refs(path, conns["\\EN"])[0], "CLK": self.refs(path, conns["\\CLK"])[0],
+                      "pol": int(bool(params.get("\\CLK_POLARITY", 1))), "trans": []}
+                self.rds.append(rd)
+                self._pending_rds.append((rd, path, memid, mask))
+
+    def resolve_transparency(self):
+        for rd, path, memid, mask in self._pending_rds:
+            for (p2, m2, portid), idx in self.wr_ids.items():
+                if p2 == path and m2 == memid and (mask >> portid) & 1:
+                    rd["trans"].append(idx)
 
     def order(self):
         """Kahn topological order of the combinational nodes."""
@@ -156,6 +219,9 @@ class Flattener:
             elif nd["k"] == "conn":
                 r = {x for x in nd["r"] if x >= 2}
                 w = {x for x in nd["l"] if x >= 2}
+            elif nd["k"] == "memrd":
+                r = {x for x in nd["A"] if x >= 2}
+                w = {x for x in nd["Y"] if x >= 2}
             else:
                 r, w = self.item_rw(nd["items"])
                 r -= w
@@ -195,10 +261,12 @@ def flatten(doc, top=None):
         tops = [m["name"] for m in doc["modules"] if any(a[0] == "\\top" for a in m["attrs"])]
         top = tops[0] if tops else doc["modules"][0]["name"]
     fl.module(top, ())
+    fl.resolve_transparency()
     fl.order()
     ports = {}
     for w in fl.mods[top]["wires"]:
         if w["port"] is not None:
             ports[w["name"].lstrip("\\")] = {"dir": w["port"]["dir"], "bits": [fl.net((), w["name"], i) for i in range(w["width"])],
                                              "signed": bool(w["signed"])}
-    return {"n": fl.next_id - 1, "nodes": fl.nodes, "ffs": fl.ffs, "init": fl.init, "ports": ports, "names": fl.names}
+    return {"n": fl.next_id - 1, "nodes": fl.nodes, "ffs": fl.ffs, "init": fl.init, "ports": ports, "names": fl.names,
+            "mems": fl.mems, "rds": fl.rds, "wrs": fl.wrs}
